@@ -21,7 +21,7 @@ REJECT = {
 
 SHAPE = {
     "name": "shape",
-    "units": [("shape_main.cpp", []), ("shape_other.cpp", [])] + [("shape_simple.cpp", ["-DVK_LABEL=%d" % k]) for k in (0, 1, 5, 6)] +
+    "units": [("shape_main.cpp", []), ("shape_other.cpp", [])] + [("shape_simple.cpp", ["-DVK_LABEL=%d" % k]) for k in (0, 1, 3, 5, 6)] +
              [("shape_wctor.cpp", ["-DVK_WHICH=0"], "optional"), ("shape_wctor.cpp", ["-DVK_WHICH=1"], "optional")],
 }
 
@@ -54,41 +54,49 @@ def sample_list(samples, cap=4):
 
 
 # --------------------------------------------------------------------------- history-based checks
+REJ = (" Every third history contains calls that must be rejected (an out-of-range index in either or both positions, a shrinking resize), usually "
+       "followed by the resize that makes the index a vertex: the model ignores them")
 HIST_PLAN = {
     # prop: (quick cases, thorough cases, rule, floors, level)
     "C01": dict(quick=42000, thorough=1400000,
                 rule="seeded random call histories (8-80 calls; uniform / churn / re-add-after-bulk-removal generators; start sizes 0,1,2,3,5; "
                      "vertex arguments biased to existing edges, self-loops and recently touched vertices) on LabeledDirectedGraph<L> for "
-                     "L in NoLabel,int,unsigned,double,char,string,struct; after EVERY call all structural observers are compared with a set-of-pairs model. "
-                     "A case is one history; distinct_nontrivial counts distinct sequences of model states among histories of >= 8 calls",
+                     "L in NoLabel,int,unsigned,double,char,string,struct,empty tag struct; after EVERY call all structural observers are compared with a set-of-pairs model."
+                     "%s. A case is one history; distinct_nontrivial counts distinct sequences of model states among histories of >= 8 calls" % REJ,
                 floors={"calls_total": 50000, "calls_removeVertexFromEdgeList": 500, "calls_clearEdges": 100, "calls_removeSelfLoops": 300,
-                        "calls_resize": 300, "noop_exactness_checks": 5000, "obs_hasEdge": 500000}),
+                        "calls_resize": 300, "noop_exactness_checks": 5000, "obs_hasEdge": 500000, "rejected_calls_inside_histories": 15000,
+                        "rejected_calls_followed_by_resize_making_the_index_valid": 5000}),
     "C02": dict(quick=42000, thorough=1400000,
                 rule="as C01 on LabeledUndirectedGraph<L>; every call names its pair in a random orientation; model = set of unordered pairs; "
                      "observers additionally include getDegree with both self-loop conventions, getDegrees, both adjacency matrices (symmetry), "
                      "edges() yielding first<=second once per pair",
                 floors={"calls_total": 50000, "calls_removeVertexFromEdgeList": 500, "calls_clearEdges": 100, "calls_removeSelfLoops": 300,
-                        "noop_exactness_checks": 5000, "obs_hasEdge": 500000}),
+                        "noop_exactness_checks": 5000, "obs_hasEdge": 500000, "rejected_calls_inside_histories": 15000,
+                        "rejected_calls_followed_by_resize_making_the_index_valid": 5000}),
     "C03": dict(quick=18000, thorough=300000,
-                rule="random histories on labelled directed and undirected graphs (labels int,unsigned,double,char,string,struct; every label value unique "
+                rule="random histories (with rejected calls as in C01) on labelled directed and undirected graphs (labels int,unsigned,double,char,string,struct,empty tag struct; every label value unique "
                      "per call so a stale label is never mistaken for the right one); after every call getEdgeLabel (throwing and non-throwing), "
                      "hasEdge(i,j,label) are compared for EVERY ordered pair with a map model; counters label_reads_after_* show reads of pairs "
                      "whose edge disappeared through each removal path",
                 floors={"calls_total": 50000, "label_reads_after_removeEdge": 1000, "label_reads_after_removeSelfLoops": 300,
                         "label_reads_after_removeVertexFromEdgeList_as_source": 300, "label_reads_after_removeVertexFromEdgeList_as_destination": 300,
-                        "label_reads_after_clearEdges": 300, "label_reads_after_recreation": 1000, "rejected_setEdgeLabel_on_missing_edge": 300}),
+                        "label_reads_after_clearEdges": 300, "label_reads_after_recreation": 1000, "rejected_setEdgeLabel_on_missing_edge": 300,
+                        "rejected_calls_inside_histories": 6000, "rejected_calls_followed_by_resize_making_the_index_valid": 2000}),
     "C04": dict(quick=30000, thorough=1000000,
                 rule="random histories on DirectedMultigraph and UndirectedMultigraph mixing addEdge/addMultiedge/addReciprocal*/removeEdge/removeMultiedge/"
                      "setEdgeMultiplicity (0 included)/removeSelfLoops/removeVertexFromEdgeList/clearEdges/resize; after every call getEdgeMultiplicity for all "
                      "ordered pairs, hasEdge, getEdgeNumber, getTotalEdgeNumber, degrees and adjacency matrix are compared with a map pair->multiplicity",
                 floors={"calls_total": 40000, "calls_setEdgeMultiplicity(0)": 200, "calls_removeMultiedge": 1000, "calls_clearEdges": 50,
-                        "calls_removeVertexFromEdgeList": 300, "mult_reads_absent_pair": 50000}),
+                        "calls_removeVertexFromEdgeList": 300, "mult_reads_absent_pair": 50000, "rejected_calls_inside_histories": 10000,
+                        "rejected_calls_followed_by_resize_making_the_index_valid": 3000}),
     "C05": dict(quick=12000, thorough=360000,
                 rule="random histories on DirectedWeightedGraph and UndirectedWeightedGraph; two weight alphabets: exact dyadic k/8 (total weight must "
                      "match the model sum EXACTLY) and rounding (random doubles, tolerance 1e-9*(1+sum|w| ever added)); getEdgeWeight (both modes, both "
-                     "orientations), getTotalWeight, getWeightMatrix and the structural observers compared after every call",
+                     "orientations), getTotalWeight, getWeightMatrix and the structural observers compared after every call; one rounding-mode history in seven draws a third "
+                     "of its weights from +-(0.5..0.99)*DBL_MAX while the sum of the weights present stays a finite double at every step; rejected calls as in C01",
                 floors={"calls_total": 40000, "calls_setEdgeWeight": 2000, "total_weight_exact_comparisons": 10000, "total_weight_tolerance_comparisons": 10000,
-                        "calls_clearEdges": 50, "calls_removeVertexFromEdgeList": 300}),
+                        "calls_clearEdges": 50, "calls_removeVertexFromEdgeList": 300, "rejected_calls_inside_histories": 4000,
+                        "rejected_calls_followed_by_resize_making_the_index_valid": 1500, "calls_with_a_weight_above_half_of_DBL_MAX": 1500}),
     "C06": dict(quick=54000, thorough=1800000,
                 rule="pairs of histories: A = random history; B = different random history followed by a shuffled repair sequence reaching the same "
                      "denoted graph; C = straight build in random order/orientation; copies by construction and assignment; a copy perturbed by exactly one "
@@ -101,7 +109,7 @@ HIST_PLAN = {
                      "simple/labelled classes - neighbour multisets, edges(), getEdgeNumber, adjacency matrix, hasEdge compared with a multiset model after "
                      "every call, and after each removeDuplicateEdges operator== against an unforced replay; forced insertions followed by "
                      "removeDuplicateEdges on the weighted and multigraph classes",
-                floors={"calls_total": 40000, "calls_removeDuplicateEdges": 1500, "dedup_vs_unforced_replay_comparisons": 1500}),
+                floors={"calls_total": 40000, "calls_removeDuplicateEdges": 1500, "dedup_vs_unforced_replay_comparisons": 1500, "rejected_calls_inside_histories": 12000}),
 }
 
 
@@ -168,20 +176,28 @@ SHAPE_PLAN = {
                      "getInDegrees, getAdjacencyMatrix, getReversedGraph, getDirectedGraph, undirected-from-directed, text and binary writers and operator<< are "
                      "DEFINED (return normally; what they return is C01/C02/C09/C13/C14's verdict); then three enumerate-mutate-enumerate rounds per graph. distinct_nontrivial = distinct (graph, insertion order) pairs with at least one vertex",
                 floors={"graphs_with_zero_vertices": 10, "graphs_without_edges": 40, "graphs_from_exhaustive_enumeration": 8000, "edge_iteration_steps": 100000,
-                        "files_written": 10000, "conversions_checked": 5000}),
+                        "files_written": 10000, "conversions_checked": 5000, "graphs_with_a_past_of_removals_and_rebuilds": 5000, "rejected_calls_in_the_past_of_a_graph": 15000}),
     "C09": dict(level="exploration",
                 rule="graph space of C08 x unique label per edge x label kinds NoLabel,int,string,struct: getReversedGraph vs independently built reverse (+ labels, "
                      "reverse twice == g); getDirectedGraph vs independent build (+labels) and u->d->u == u; undirected-from-directed pairs and label membership; each "
                      "of the eight classes constructed from vector, list, deque, forward_list, set and multiset of (labelled / weighted / multi) edges incl. a repeated "
                      "entry, compared with adding one at a time (size = 1+max index, 0 when empty); copy construction / assignment independent of the source. The "
-                     "weighted edge-list constructors are compiled as separate units: failing to instantiate is reported as a violation",
-                floors={"conversions_checked": 8000, "constructor_checks": 60000, "copy_checks": 8000, "label_reads": 50000, "weighted_constructor_checks": 5000}),
+                     "weighted edge-list constructors are compiled as separate units: failing to instantiate is reported as a violation. Also: unlabelled classes from "
+                     "containers of (i,j,NoLabel) with a repeated pair; multigraph lists with a multiplicity of 2^31 .. UINT_MAX; assignment over non-empty graphs from "
+                     "lvalues and temporaries and construction from a temporary; a fifth of the source graphs have a past (foreign edges removed again, rejected calls, "
+                     "removeVertexFromEdgeList, clearEdges and a rebuild)",
+                floors={"conversions_checked": 8000, "constructor_checks": 60000, "copy_checks": 8000, "label_reads": 50000, "weighted_constructor_checks": 5000,
+                        "assignments_over_a_non_empty_graph_and_from_temporaries": 40000, "constructor_lists_with_a_multiplicity_of_2_to_the_31_or_more": 1500,
+                        "graphs_with_a_past_of_removals_and_rebuilds": 5000}),
     "C10": dict(level="exploration",
                 rule="for every directed graph on n<=3 (<=4 thorough) and undirected graph on n<=4 (<=5 thorough) and random graphs on 4-6 (4-7) vertices, with unique "
                      "labels (int,string,struct, and unlabelled): ALL 2^n vertex subsets S, inserted into the unordered_set in two orders. getSubgraph: size n, exactly "
                      "the induced edges with labels. getSubgraphWithRemap: |S| vertices, map domain = S, image = 0..|S|-1 injective, pulled-back edges and labels = "
-                     "induced subgraph. distinct_nontrivial = distinct (graph, order) pairs; every one is checked against all its subsets",
-                floors={"subsets_checked": 100000, "remap_bijection_checks": 100000, "label_reads": 100000}),
+                     "induced subgraph. distinct_nontrivial = distinct (graph, order) pairs; every one is checked against all its subsets. A quarter of the sources have "
+                     "a past, a quarter carry forced duplicates (then only the set of connected pairs and the labels are held); a double label kind has NaN on a third "
+                     "of its edges; a subgraph of a subgraph is the subgraph of the intersection; rejected calls between the valid ones",
+                floors={"subsets_checked": 100000, "remap_bijection_checks": 100000, "label_reads": 100000, "source_graphs_carrying_forced_duplicates": 4000,
+                        "edges_labelled_NaN": 8000, "subgraph_of_subgraph_checks": 100000, "graphs_with_a_past_of_removals_and_rebuilds": 4000}),
 }
 
 
@@ -223,15 +239,20 @@ PATHS_PLAN = {
                      "every destination): reference BFS distances; single predecessor is an in-neighbour one hop closer; all-predecessor list equals the set of such "
                      "in-neighbours without repeats (empty for source/unreachable); findGeodesics / FromVertex paths walked edge by edge with the right length, [s] for "
                      "the source, empty when unreachable; findAllGeodesics / FromVertex compared AS SETS with a brute-force enumeration of all shortest paths (no "
-                     "duplicates, none missing). Searches run on a scan-counting wrapper graph type, so a non-terminating search is a verdict",
+                     "duplicates, none missing). Searches run on a scan-counting wrapper graph type, so a non-terminating search is a verdict. A fifth of the graphs carry "
+                     "forced duplicates of a third of their edges; shuffled-order graphs have two rejected calls in their past; ten (thorough: forty) shallow random "
+                     "graphs of 65535..100003 vertices are searched from three sources",
                 floors={"sources": 8000, "source_destination_pairs": 30000, "all_shortest_path_sets_compared": 30000, "pairs_with_several_shortest_paths": 2000,
-                        "unreachable_pairs": 3000, "paths_validated_edge_by_edge": 50000}),
+                        "unreachable_pairs": 3000, "paths_validated_edge_by_edge": 50000, "graphs_with_forced_duplicate_edges": 800,
+                        "graphs_of_65535_to_100003_vertices": 10, "rejected_calls_made_on_a_graph_before_it_is_searched": 3000}),
     "C12": dict(level="exploration",
                 rule="graph space of C11 on DirectedWeightedGraph / UndirectedWeightedGraph with weights from {0,1,2,3} (ties, zero cycles), dyadic k/16, all-zero, and "
                      "random non-negative doubles (exhaustive topologies on n<=3 get all four alphabets); every source: distances compared with Bellman-Ford (exactly for "
                      "the exact alphabets, 1e-9 relative otherwise), dist[s]=0, pred[s]=s, unreachable = +inf with sentinel predecessor, and for every reached v!=s an "
-                     "edge (pred,v) with dist[v]=dist[pred]+w",
-                floors={"dijkstra_runs": 8000, "dijkstra_tree_edges_checked": 15000, "dijkstra_tree_edges_of_weight_zero": 1500, "weight_alphabet_all_zero": 300}),
+                     "edge (pred,v) with dist[v]=dist[pred]+w; ten (thorough: forty) graphs of 65535..131072 vertices of which 300, spread over the whole index range, "
+                     "carry edges (reference: textbook Dijkstra); shuffled-order graphs have two rejected calls in their past",
+                floors={"dijkstra_runs": 8000, "dijkstra_tree_edges_checked": 15000, "dijkstra_tree_edges_of_weight_zero": 1500, "weight_alphabet_all_zero": 300,
+                        "graphs_of_65535_to_100003_vertices": 10, "rejected_calls_made_on_a_graph_before_it_is_searched": 8000}),
     "C19": dict(level="exploration",
                 rule="work counters: wrapper graph types derive from the real classes and shadow getOutNeighbours with a counter that throws at bound+1; bounds exactly "
                      "as stated: findVertexPredecessors <= V, findAllVertexPredecessors <= V+E, findGeodesicsDijkstra <= V+E+1 (E = total neighbour-list length). "
@@ -240,7 +261,7 @@ PATHS_PLAN = {
                      "with all-zero weights, {0,1,2,3} and dyadic weights; every source (8 sampled sources above 40 vertices); a third of the graphs hold every edge two or three times "
                      "(force=true: E counts list entries); shortcut-triangle chains and dense random graphs provoke decrease-key cascades. Wrong answers seen on the "
                      "way are counted but left to C11/C12: only the scan count is judged here",
-                floors={"scan_bound_checks": 20000, "searches_from_sources_with_over_1e6_shortest_paths": 200, "dijkstra_runs": 5000}),
+                floors={"scan_bound_checks": 20000, "searches_from_sources_with_over_1e6_shortest_paths": 200, "dijkstra_runs": 5000, "bases_with_weights_in_32nds": 15000}),
 }
 
 
@@ -275,6 +296,7 @@ IO_PLAN = {
                      "before/between/after tokens, optional final newline) must load to the model. (c) vertex-name loader: random whitespace-free names (may contain or, "
                      "after blanks, start with '#'; numeric-looking names included): indices by first appearance, names[index(x)]==x, edges under the map",
                 floors={"text_round_trips": 1500, "well_formed_files_loaded": 1500, "name_files_loaded": 1500, "comment_lines_generated": 500,
+                        "hand_written_files_with_zero_padded_indices": 500, "round_trips_of_a_loaded_graph": 800,
                         "whitespace_runs_longer_than_one": 3000, "zero_vertex_graphs": 30, "graphs_with_isolated_tail": 200, "files_without_final_newline": 100}),
     "C14": dict(level="exploration", quick=40000, thorough=1200000,
                 rule="seeded random graphs x label kinds none,uint8,int8,char,uint16,int32,uint32,int64,uint64,float,double x directed/undirected: bytes of the written "
@@ -282,7 +304,8 @@ IO_PLAN = {
                      "twice (deterministic), resized, compared with the model and operator== the original; hand-made files written by the monitor's encoder with records "
                      "shuffled / undirected pairs flipped must load to the same graph; every writer and loader (text ones too) on unopenable paths (missing directory, "
                      "over-long name, empty name, directory for writers, removed file for loaders) must throw std::runtime_error",
-                floors={"binary_round_trips": 4000, "hand_made_files_loaded": 2000, "open_failure_calls": 1500, "file_bytes_compared_with_independent_encoding": 100000}),
+                floors={"binary_round_trips": 4000, "hand_made_files_loaded": 2000, "open_failure_calls": 1500, "file_bytes_compared_with_independent_encoding": 100000,
+                        "written_graphs_carrying_forced_duplicates": 300, "round_trips_of_a_loaded_graph": 3000}),
     "C15": dict(level="fault_enumeration", quick=4000, thorough=120000,
                 rule="(a) crash points: for seeded valid binary files (label sizes 0,1,2,4,8 bytes; directed and undirected) EVERY cut offset 0..length is loaded; the "
                      "loader must throw a std::exception or return exactly the complete records before the cut (vertices, edges, labels). (b) malformed text from a "
@@ -291,7 +314,7 @@ IO_PLAN = {
                      "returns a graph whose observers can all be read, or throws something derived from std::exception. ASan+UBSan+_GLIBCXX_ASSERTIONS in-process; an "
                      "input that kills the process is re-run in a forked child and reported; thorough adds valgrind memcheck over the truncation cases",
                 floors={"cut_offsets_loaded": 20000, "cuts_inside_a_record": 15000, "malformed_text_inputs": 3000, "malformed_text_loader_threw_std_exception": 800,
-                        "malformed_text_loader_returned": 300, "cut_offsets_loaded_under_memcheck": 2000}),
+                        "malformed_text_loader_returned": 300, "cut_offsets_loaded_under_memcheck": 2000, "truncated_files_written_through_a_user_codec": 40}),
 }
 
 
